@@ -41,6 +41,8 @@ def run(ctx):
     for cfg in ("rel", "dbg"):
         c11_ringhash.table(ctx, ctx.crate(cfg), cfg, ns)
     ctx.not_decided("ring hash lands in the containing cell; centre round trip; polar-cap index correction at lon = k*pi/2 (float tie-breaks)")
+    from rules import cancellation
+    cancellation.check(ctx, ctx.crate("rel"), ['ring::hash', 'ring::hash_with_dxdy', 'ring::center', 'ring::sph_coo', 'ring::vertices'], floor=17)
     from rules import controls
     controls.guard_controls(ctx)
     controls.isqrt_controls(ctx)
